@@ -250,6 +250,35 @@ func ordersOf(s *Snap) map[uint64]*ord {
 
 var minOrderVolume = big.NewInt(1e10)
 
+// crossedOrders lists the orders whose own price is better for a taker than the pool's marginal
+// price by more than one part in a million (pools with dust reserves are not judged).
+func crossedOrders(s *Snap) map[uint64]string {
+	out := map[uint64]string{}
+	dust := big.NewInt(1e12)
+	for _, p := range s.Pools {
+		r0, r1 := bi(p.Reserve0), bi(p.Reserve1)
+		if r0.Cmp(dust) < 0 || r1.Cmp(dust) < 0 {
+			continue
+		}
+		for _, o := range p.Orders {
+			v0, v1 := bi(o.Volume0), bi(o.Volume1)
+			var l, r *big.Int
+			if o.IsSale {
+				// maker sells coin1 for coin0: taker pays v0/v1 of coin0 per coin1, the pool asks r0/r1
+				l, r = new(big.Int).Mul(v0, r1), new(big.Int).Mul(v1, r0)
+			} else {
+				l, r = new(big.Int).Mul(v1, r0), new(big.Int).Mul(v0, r1)
+			}
+			// crossed when l < r*(1-1e-6)
+			lim := new(big.Int).Sub(r, new(big.Int).Div(r, big.NewInt(1000000)))
+			if l.Cmp(lim) < 0 {
+				out[o.ID] = fmt.Sprintf("order %d (sale %v) volumes %s / %s, pool %d reserves %s / %s", o.ID, o.IsSale, v0, v1, p.ID, r0, r1)
+			}
+		}
+	}
+	return out
+}
+
 // better reports whether a is strictly ahead of b in the book: cheaper for the taker at double
 // precision, or equal price and lower id.
 func better(a, b *ord) bool {
@@ -426,6 +455,17 @@ func (o *OracleC14) Judge(w *World, b *BlockCtx, p *ProbeResult) {
 			w.Probe("c14_fill_checked")
 		}
 	}
+	for _, x := range consumed {
+		for _, z := range consumed {
+			if z.pool == x.pool && z.sale == x.sale && z.id == x.id+1 {
+				pa, _ := new(big.Rat).SetFrac(x.buy, x.sell).Float64()
+				pb, _ := new(big.Rat).SetFrac(z.buy, z.sell).Float64()
+				if pa == pb {
+					w.Probe("c14_equal_price_neighbours_consumed")
+				}
+			}
+		}
+	}
 	// priority: nothing strictly ahead in the same book side may be left untouched with volume
 	for _, x := range consumed {
 		for id, z := range before {
@@ -438,6 +478,20 @@ func (o *OracleC14) Judge(w *World, b *BlockCtx, p *ProbeResult) {
 				return
 			}
 		}
+	}
+	// best price first also binds the pool itself: a trade never moves the pool price past an order
+	// that it left untouched (placement requires orders to be no better than the pool price)
+	cb, ca := crossedOrders(p.Before), crossedOrders(p.After)
+	for id, d := range ca {
+		z, y := before[id], after[id]
+		if z == nil || y == nil || cb[id] != "" || y.sell.Cmp(z.sell) != 0 || z.owner == m.Sender {
+			continue
+		}
+		w.Report("C14", "orders", "pool-traded-past-order", fmt.Sprintf("height %d: after this %s order %d is untouched although the pool price moved past it: %s", p.Height, m.Kind, id, d), p.Height)
+		return
+	}
+	if len(ca) == 0 && len(after) > 0 {
+		w.Probe("c14_book_not_crossed_checked")
 	}
 	if len(consumed) > 0 {
 		w.Probe("c14_trade_with_fills")
